@@ -223,7 +223,11 @@ def harness_text(ob, config):
             a.append("#[cfg_attr(kani, kani::stub(%s, %s))]" % (o, r))
     for p in ob.stub_verified:
         a.append("#[cfg_attr(kani, kani::stub_verified(%s))]" % p)
-    a.append("pub fn %s() {\n    %s\n    reach!();\n}" % (ob.name, ob.body))
+    pre = ""
+    if any(isinstance(s, str) and s.startswith("arith_uf") for s in ob.stubs):
+        # all arithmetic uninterpreted: Ackermann CONSTRAINT encoding of the tables (lib/uf.rs)
+        pre = "unsafe { crate::uf::ACK_ASSUME = true; }\n    "
+    a.append("pub fn %s() {\n    %s%s\n    reach!();\n}" % (ob.name, pre, ob.body))
     return "\n".join(a)
 
 
